@@ -288,3 +288,8 @@ Qed.
 
 Lemma group_closes body : balanced body -> bal 0 ([c_lbrace] ++ body ++ [c_rbrace]) = Some 0%nat.
 Proof. apply balanced_group. Qed.
+
+Lemma group_matches body : balanced body ->
+  (forall p q, body = p ++ q -> exists k, bal 0 ([c_lbrace] ++ p) = Some (S k)) /\
+  bal 0 ([c_lbrace] ++ body ++ [c_rbrace]) = Some 0%nat.
+Proof. intros H. split; [exact (group_stays_open body H)|exact (group_closes body H)]. Qed.
